@@ -4,6 +4,7 @@ import collections
 from rules import grd as G
 from rules import fmt as F
 from rules import extra as X
+from rules import sep as SEP
 from rules.core import guarded, callee_name, last_seg, strip_generics
 
 INFO = {
@@ -198,5 +199,8 @@ def run(col, configs, tier):
         guarded(col, rule_index_writers, facts)
         guarded(col, rule_panic_inventory, facts)
         guarded(col, X.rule_bigfloat_bits, facts)
+        guarded(col, X.rule_binary_factor, facts)
+        # the `_ => unreachable!()` arm of every peek dispatch is unreachable only if all 16 flag combinations are arms
+        guarded(col, SEP.rule_peek_dispatch, facts)
         guarded(col, X.rule_exponent_bound, facts)
         guarded(col, F.rule_entry_validation, facts)
